@@ -26,13 +26,14 @@ use vh_common::{Args, Report, Rng, Tier, Value, json};
 
 use crate::chan::Transport;
 use crate::drive::{DriveCfg, End, StoreActivity, stall_shape};
-use crate::fstore::FStore;
+use crate::fstore::{FStore, Fault};
 use crate::memstore::MemStore;
 use crate::model::{Logs, MasterLog, Op, insert_ops, make_log};
 use crate::pool::{WorkerCtx, default_workers, run_cases};
-use crate::session::{PairCfg, lite, run_pair};
+use crate::session::{Lite, PairCfg, PairRun, lite, run_pair};
 
 pub const SIG_DEADLOCK: &str = "C21:deadlock:both-blocked_in_send:both-buffers-full";
+pub const SIG_SPIN: &str = "C21:spin:session-loops-without-awaiting";
 
 #[derive(Clone, Debug)]
 struct Cfg {
@@ -108,6 +109,8 @@ struct CaseOut {
     inconclusive: Option<String>,
     witness: Value,
     polls: u64,
+    /// `Some((kind, k, same_author))` for cases of the concurrent-prune stage.
+    fault: Option<(usize, u64, bool)>,
 }
 
 fn case(ctx: &WorkerCtx, seed: u64, n: u64, grid: &[(Transport, usize, usize)]) -> CaseOut {
@@ -156,6 +159,7 @@ fn case(ctx: &WorkerCtx, seed: u64, n: u64, grid: &[(Transport, usize, usize)]) 
         inconclusive: None,
         witness,
         polls: 0,
+        fault: None,
     };
 
     let total = Arc::new(StoreActivity::default());
@@ -209,6 +213,12 @@ fn case(ctx: &WorkerCtx, seed: u64, n: u64, grid: &[(Transport, usize, usize)]) 
             pair_cfg(DriveCfg::exact()),
         )
     };
+    judge(&run, transport, measured, va, vb, &mut out);
+    out
+}
+
+/// Turn the final state of a pair into the case verdict (shared by the grid and the fault stage).
+fn judge(run: &PairRun<Lite>, transport: Transport, measured: Option<usize>, va: usize, vb: usize, out: &mut CaseOut) {
     out.polls = run.polls[0] + run.polls[1];
 
     let sent_ops = |side: usize| run.sent[side].iter().filter(|(_, _, m)| m.kind == "operation").count();
@@ -268,11 +278,122 @@ fn case(ctx: &WorkerCtx, seed: u64, n: u64, grid: &[(Transport, usize, usize)]) 
                 out.violation = Some((format!("C21:stall:{shape}"), format!("session pair can make no further progress over {}: {shape}; {} ops on A, {} ops on B", transport.label(), va, vb)));
             }
         }
+        End::Spin { snap, span_entries_without_io } => {
+            let (shape, _) = stall_shape(snap, measured);
+            out.witness["final_state"] = snap.json();
+            out.witness["span_entries_without_transport_or_store_call_in_one_poll"] = json!(span_entries_without_io);
+            out.outcome = "spin";
+            out.violation = Some((
+                SIG_SPIN.into(),
+                format!(
+                    "a session loops inside one poll without awaiting anything ({span_entries_without_io} span entries, no transport or store call) over {}; final state {shape}; {va} ops on A, {vb} ops on B",
+                    transport.label()
+                ),
+            ));
+        }
         End::Watchdog { snap } => {
             out.outcome = "watchdog";
             out.inconclusive = Some(format!("wall-clock watchdog fired without a decisive state ({}, {va}/{vb} ops): {}", transport.label(), snap.json()));
         }
     }
+}
+
+// ---------------------------------------------------------------------------------------------
+// Fault stage: termination while the local store changes concurrently
+// ---------------------------------------------------------------------------------------------
+
+const FAULT_TRANSPORTS: [Transport; 4] = [Transport::Futures(512), Transport::Futures(8), Transport::Tokio(8), Transport::Unbounded];
+const FAULT_KINDS: [&str; 2] = ["prune-one-whole-log", "append-then-prune-up-to-the-announced-height"];
+/// (ops per log on A — A holds two logs —, ops on B, two logs of one author?, fault kind, store-call index)
+fn fault_grid() -> Vec<(Transport, usize, usize, bool, usize, u64)> {
+    let mut out = Vec::new();
+    for t in FAULT_TRANSPORTS {
+        for va in [2usize, 6] {
+            for vb in [0usize, 3] {
+                for same_author in [true, false] {
+                    for kind in 0..FAULT_KINDS.len() {
+                        for k in 0..7u64 {
+                            out.push((t, va, vb, same_author, kind, k));
+                        }
+                    }
+                }
+            }
+        }
+    }
+    out
+}
+
+/// Honest peers, one-sided or two-sided data, and one of A's two announced logs is emptied by a
+/// concurrent prune immediately before A's k-th store call while A's other log keeps its
+/// operations. The session pair must still terminate.
+fn fault_case(ctx: &WorkerCtx, seed: u64, n: u64, idx: usize, fgrid: &[(Transport, usize, usize, bool, usize, u64)]) -> CaseOut {
+    let mut rng = Rng::fork(seed, n);
+    let (transport, va, vb, same_author, kind, k) = fgrid[idx % fgrid.len()];
+    let measured = transport.measured_capacity(100_000);
+    let mut krng = Rng::new(0xC21_F000);
+    let keys: Vec<SigningKey> = (0..3).map(|_| SigningKey::from_bytes(&krng.array32())).collect();
+    // A's two logs (master logs are 3 operations longer than what A holds), B's log.
+    let a1 = make_log(&keys[0], 1, va + 3, &mut krng, |_, _| Some(40), |_, _| false);
+    let a2 = make_log(if same_author { &keys[0] } else { &keys[1] }, 2, va + 3, &mut krng, |_, _| Some(40), |_, _| false);
+    let b1 = make_log(&keys[2], 1, vb.max(1), &mut krng, |_, _| Some(40), |_, _| false);
+    let mut logs: Logs = BTreeMap::new();
+    for m in [&a1, &a2, &b1] {
+        logs.entry(m.author).or_default().push(m.log);
+    }
+    let (sa, sb) = (MemStore::default(), MemStore::default());
+    a1.ops[..va].iter().chain(a2.ops[..va].iter()).for_each(|o| sa.insert(o));
+    b1.ops[..vb].iter().for_each(|o| sb.insert(o));
+    // The victim alternates between A's first and second log.
+    let victim = if (k + kind as u64) % 2 == 0 { &a1 } else { &a2 };
+    let until = va as u32; // held 0..va-1: everything announced goes
+    let faults = match kind {
+        0 => vec![Fault::Prune { author: victim.author, log: victim.log, until }],
+        _ => vec![Fault::Insert { ops: victim.ops[va..va + 2].to_vec() }, Fault::Prune { author: victim.author, log: victim.log, until }],
+    };
+    let witness = json!({
+        "seed": seed, "case": n, "stage": "concurrent prune", "transport": transport.label(), "measured_capacity_messages": measured,
+        "A_holds": format!("two logs ({}) of {va} operations each", if same_author { "one author" } else { "two authors" }),
+        "operations_on_B": vb, "fault": FAULT_KINDS[kind], "victim_log_of_A": victim.log, "before_store_call_of_A": k,
+        "store": "in-memory LogStore",
+    });
+    *ctx.slot.what.lock().unwrap() = witness.clone();
+    let total = Arc::new(StoreActivity::default());
+    let fa = FStore::new(sa, total.clone());
+    let fb = FStore::new(sb, total.clone());
+    *fa.ctl.armed.lock().unwrap() = Some((k, faults));
+    let ctl = fa.ctl.clone();
+    let run = run_pair(
+        fa,
+        fb,
+        [logs.clone(), logs],
+        lite,
+        &mut rng,
+        PairCfg {
+            transport,
+            dedup_capacity: 1024,
+            event_capacity: 64,
+            drive: DriveCfg::exact(),
+            slot: &ctx.slot,
+            tags: [Arc::new(AtomicU64::new(0)), Arc::new(AtomicU64::new(0))],
+            extra_progress: total,
+        },
+    );
+    let fired = ctl.fired.load(std::sync::atomic::Ordering::SeqCst);
+    let mut out = CaseOut {
+        nontrivial: fired,
+        cfg: Cfg { transport, vol: [2 * va, vb], body: 40, authors: [if same_author { 1 } else { 2 }, 1], sqlite: false },
+        outcome: "?",
+        violation: None,
+        inconclusive: None,
+        witness,
+        polls: 0,
+        fault: Some((kind, k, same_author)),
+    };
+    out.witness["fault_fired"] = json!(fired);
+    out.witness["store_calls_of_A"] = json!(ctl.log.lock().unwrap().iter().map(|c| format!("{}({:?}, {:?}, {:?})", c.kind, c.logs, c.after, c.until)).collect::<Vec<_>>());
+    // `judge` compares sent operations with the volume only for a note; pass what A can still send.
+    judge(&run, transport, measured, 2 * va, vb, &mut out);
+    out.witness.as_object_mut().map(|o| o.remove("note"));
     out
 }
 
@@ -283,32 +404,49 @@ pub fn run(args: &Args) {
         "grid of transports {futures-mpsc(0,1,2,8,64,512,unbounded), tokio-mpsc(1,2,8,64,512)} x operations per side \
          {0,1,cap,cap+2,10*cap}^2; first pass: one author per side, 100-byte bodies; further passes draw body size {0,100,1000,65536 B}, \
          1-3 authors per side, SQLite vs in-memory store and the poll order from the seed. Non-trivial = each side has more messages \
-         to send (operations + Have/PreSync/Done) than the transport holds (measured); distinct = (transport, volumes, body, authors, store)",
+         to send (operations + Have/PreSync/Done) than the transport holds (measured); distinct = (transport, volumes, body, authors, store). \
+         Concurrent-prune stage: A announces two logs (one or two authors, 2 or 6 operations each), B holds 0 or 3 operations; immediately \
+         before A's k-th store call (k = 0..6) one of A's logs is emptied (pruned whole, or appended-to and pruned up to the announced \
+         height) while the other keeps its operations; transports futures-mpsc(8,512,unbounded), tokio-mpsc(8). Non-trivial there = the fault fired",
         if args.tier == Tier::Quick { 40 } else { 1_000 },
     );
-    let n = args.n(grid.len() as u64, grid.len() as u64 * 60);
+    let n_grid = args.n(grid.len() as u64, grid.len() as u64 * 60);
+    let fgrid = Arc::new(fault_grid());
+    let n_fault = args.n(fgrid.len() as u64, fgrid.len() as u64 * 10);
+    let n = n_grid + n_fault;
     let seed = args.seed;
     let g2 = grid.clone();
-    let work: Arc<dyn Fn(&WorkerCtx, u64) -> CaseOut + Send + Sync> = Arc::new(move |ctx, i| case(ctx, seed, i, &g2));
+    let work: Arc<dyn Fn(&WorkerCtx, u64) -> CaseOut + Send + Sync> = Arc::new(move |ctx, i| {
+        // The cheap concurrent-prune stage runs first so that a time budget cannot starve it.
+        if i < n_fault { fault_case(ctx, seed, i, i as usize, &fgrid) } else { case(ctx, seed, i - n_fault, &g2) }
+    });
     let budget = std::time::Duration::from_secs(if args.tier == Tier::Quick { 80 } else { 25 * 60 });
     let started = std::time::Instant::now();
     let mut by_transport: BTreeMap<String, BTreeMap<&'static str, u64>> = BTreeMap::new();
     let mut smallest_deadlock: BTreeMap<String, (usize, usize)> = BTreeMap::new();
     let mut polls = 0u64;
     let mut stores = [0u64; 2];
+    let mut fault_outcomes: BTreeMap<&'static str, u64> = BTreeMap::new();
+    let mut fault_fired = 0u64;
     let end = {
-        let (rep, by_transport, smallest, polls, stores) = (&mut rep, &mut by_transport, &mut smallest_deadlock, &mut polls, &mut stores);
+        let (rep, by_transport, smallest, polls, stores, fault_outcomes, fault_fired) =
+            (&mut rep, &mut by_transport, &mut smallest_deadlock, &mut polls, &mut stores, &mut fault_outcomes, &mut fault_fired);
         run_cases(n, default_workers(), work, move |_, c: CaseOut| {
             *polls += c.polls;
             stores[c.cfg.sqlite as usize] += 1;
-            let key = format!("{:?}", (c.cfg.transport, c.cfg.vol, c.cfg.body, c.cfg.authors, c.cfg.sqlite));
+            let key = format!("{:?}", (c.cfg.transport, c.cfg.vol, c.cfg.body, c.cfg.authors, c.cfg.sqlite, c.fault));
             rep.case(c.nontrivial.then_some(key));
-            *by_transport.entry(c.cfg.transport.label()).or_default().entry(c.outcome).or_default() += 1;
+            if c.fault.is_some() {
+                *fault_outcomes.entry(c.outcome).or_default() += 1;
+                *fault_fired += c.nontrivial as u64;
+            } else {
+                *by_transport.entry(c.cfg.transport.label()).or_default().entry(c.outcome).or_default() += 1;
+            }
             if let Some(w) = c.inconclusive {
                 rep.inconclusive(w);
             }
             if let Some((sig, what)) = c.violation {
-                if c.outcome == "deadlock" {
+                if c.outcome == "deadlock" && c.fault.is_none() {
                     let e = smallest.entry(c.cfg.transport.label()).or_insert((c.cfg.vol[0], c.cfg.vol[1]));
                     if c.cfg.vol[0] + c.cfg.vol[1] < e.0 + e.1 {
                         *e = (c.cfg.vol[0], c.cfg.vol[1]);
@@ -340,6 +478,8 @@ pub fn run(args: &Args) {
     }
     rep.extra("outcomes_by_transport", json!(by_transport));
     rep.extra("smallest_deadlocking_volumes_by_transport (ops on A, ops on B)", json!(smallest_deadlock));
+    rep.extra("concurrent_prune_stage_outcomes", json!(fault_outcomes));
+    rep.extra("concurrent_prune_stage_sessions_where_the_fault_fired", json!(fault_fired));
     rep.extra("session_polls", json!(polls));
     rep.extra("configurations_on_in_memory_store", json!(stores[0]));
     rep.extra("configurations_on_sqlite_store", json!(stores[1]));
